@@ -389,11 +389,6 @@ func NewRateLimiter(config RateLimiterConfig) *RateLimiter {
 
 // AllowRequest checks if a request should be allowed
 func (rl *RateLimiter) AllowRequest(ip string, connID string) bool {
-	// Check global limit first
-	if !rl.globalLimiter.Allow() {
-		return false
-	}
-
 	// Check per-IP limit
 	if !rl.perIPLimiter.Allow(ip) {
 		return false
@@ -414,6 +409,12 @@ func (rl *RateLimiter) AllowRequest(ip string, connID string) bool {
 				return false
 			}
 		}
+	}
+
+	// Check the global limit last: a request refused by its own per-IP or
+	// per-connection limit must not consume capacity shared with other clients
+	if !rl.globalLimiter.Allow() {
+		return false
 	}
 
 	return true
